@@ -160,6 +160,6 @@ pub fn run(ctx: &Ctx) {
     }
     ctx.sample(json!({"kind":"string-enumeration","source":"start: repne scas word","cx":"0..=64","df":[0,1],"configs":6,"first_stop":"None, 0, cx/2, cx-1, cx, seeded"}));
     // generated cases (larger CX, arbitrary registers)
-    let n = ctx.tier.pick(16_000u32, 400_000u32);
+    let n = ctx.tier.pick(120_000u32, 2_000_000u32);
     run_forms_n(ctx, FormSet::Strings, n, "Strings");
 }
